@@ -26,7 +26,7 @@ SCALE = 1024          # coefficient tokens handed to the Lean model: coef * SCAL
 SEG_LETTERS = set('CLOVFGJSbrkKxd')
 INV_OPC = {v: k for k, v in nlgen.OPC.items()}
 VARIADIC = ('sum', 'min', 'max')
-N_THEOREMS = 44
+N_THEOREMS = 45
 # vptr excluded: mp's CRTP base constructors downcast `this` before the derived object exists (flat/converter.h:51),
 # which UBSan's vptr check reports on every run; unrelated to this property
 SAN_FLAGS = ('-O1', '-g', '-fsanitize=address,undefined', '-fno-sanitize=vptr', '-fno-sanitize-recover=all')
@@ -1032,6 +1032,7 @@ OBLIGATION_ORACLE = {
     'C12_gen_skel_SetObjNames': r'name:',
     'C12_gen_skel_Convert_objective': r'select:',
     'C12_gen_skel_sort_terms': r'select:',
+    'C12_gen_sort_terms': r'select:',
 }
 
 
@@ -1116,14 +1117,19 @@ def gen_crosscheck(ck, drv, trdir, cov=False):
         th.append('sort_terms ' + ' '.join('%d %d' % t for t in terms))
     pt_h = subprocess.run([hexe], input='\n'.join(th) + '\n', capture_output=True, text=True).stdout.split('\n')
     pt_l = subprocess.run([drv], input='\n'.join(tl) + '\n', capture_output=True, text=True).stdout.split('\n')
+    pt_g = subprocess.run([drv], input='\n'.join('U' + x[1:] for x in tl) + '\n', capture_output=True, text=True).stdout.split('\n')
     nbad = 0
-    for a, h, l in zip(th, pt_h, pt_l):
+    for a, h, l, g in zip(th, pt_h, pt_l, pt_g):
+        if h != g:
+            nbad += 1
+            ck.add_violation('gen:LinTerms_sort_terms-differs', 'generated LinTerms_sort_terms gives "%s", the compiled LinTerms::sort_terms gives "%s" for %s' % (g, h, a),
+                             {'input': a, 'compiled': h, 'generated': g, 'correspondence': 'drv_c12 U-lines vs harness/h_objfilter.cc sort_terms'}, found_input=False)
         if h != l:
             nbad += 1
             ck.add_violation('corr:sort_terms', 'model sortTerms gives "%s", LinTerms::sort_terms gives "%s" for %s' % (l, h, a),
                              {'input': a, 'compiled': h, 'model': l, 'correspondence': 'drv_c12 T-lines vs harness/h_objfilter.cc sort_terms'}, found_input=False)
     ck.cov['sort_terms_lists_compared'] = len(th)
-    ck.log('model of LinTerms::sort_terms compared with the compiled function on %d random term lists, %d differ' % (len(th), nbad))
+    ck.log('model sortTerms and generated LinTerms_sort_terms compared with the compiled LinTerms::sort_terms on %d random term lists, %d differ' % (len(th), nbad))
     ck.cov['generated_defs'] = len(sig)
     ck.cov['generated_defs_grid_points'] = len(meta)
     ck.log('%d generated definitions cross-checked with the compiled functions on %d grid points, %d differ' % (len(sig), len(meta), sum(len(v) for v in bad.values())))
